@@ -21,6 +21,9 @@ CASES = [
     ("$", ["$['0']", "$['-1']"], "numkeys"), ("$", ["$['1']", "$.a[1]"], "numkeys"), ("$", ["$.a[0]", "$['0']"], "numkeys"), ("$.a", ["$[1]"], "numkeys"),
     ("$", ["$.a.a.b", "$.b[1].a"], "deep"), ("$.a", ["$.a.a", "$.b"], "deep"), ("$.b", ["$[0]", "$[1].a"], "deep"), ("$.b", ["$[1]"], "deep"),
     ("$..a", ["$.a"], "deep"), ("$", ["$.b[0]"], "deep"),
+    # one element reached through a negative and a non-negative index; digit-named members reached by index selectors
+    ("$", ["$[0]", "$[-2]"], "arr"), ("$", ["$[0]", "$[-1]"], "arr"), ("$", ["$[-2].a", "$[1].b"], "nest2"),
+    ("$", ["$[0]", "$[1]"], "numkeys"), ("$", ["$[1]", "$.a[0]"], "numkeys"), ("$", ["$[-1]", "$['0']"], "numkeys"),
 ]
 
 
